@@ -314,6 +314,8 @@ def swapped_arguments(repo, col, shorts=None):
                 nm = (call_name(c) or "").split(".")[-1]
                 if nm == "cls" and fn.cls is not None:
                     nm = fn.cls.name
+                if nm.startswith("__") and nm.endswith("__"):
+                    continue      # explicit dunder calls: receiver-specific
                 cands = by_name.get(nm, [])
                 if not cands or len(c.args) < 2:
                     continue
@@ -326,10 +328,17 @@ def swapped_arguments(repo, col, shorts=None):
                 # several definitions of one name (an interface and its
                 # implementations) count when they agree on the positions
                 k_ = len(c.args)
-                heads = {tuple(plist(f_)[:k_]) for f_ in cands}
+                # candidates that can take this many positional arguments
+                fit = [f_ for f_ in cands if len(plist(f_)) >= k_
+                       or f_.node.args.vararg is not None]
+                if not fit:
+                    continue
+                heads = {tuple(plist(f_)[:k_]) for f_ in fit}
                 if len(heads) != 1:
                     continue
-                callee = cands[0]
+                head = next(iter(heads))
+                callee = [f_ for f_ in fit
+                          if tuple(plist(f_)[:k_]) == head][0]
                 params = plist(callee)
                 for i, a in enumerate(c.args):
                     if i >= len(params) or isinstance(a, ast.Starred):
